@@ -458,8 +458,12 @@ class Sim:
             else:
                 order = runnable
                 weights = [1] * len(order)
-            k = self.chooser.choose(len(order), "sched", weights=weights)
-            actor = order[k]
+            forced = self._forced_actor(runnable)
+            if forced is not None:
+                actor = forced
+            else:
+                k = self.chooser.choose(len(order), "sched", weights=weights)
+                actor = order[k]
             if self.current is not None and actor is not self.current and self.current in runnable:
                 self.fired["switch"] += 1
             fault = self._decide_fault(actor)
@@ -485,6 +489,21 @@ class Sim:
         for actor in self.actors:
             if actor.exc is not None:
                 raise actor.exc
+
+    def _forced_actor(self, runnable):
+        """Directed schedules (knob preempt_at=[k1, k2, ...]): the actors take turns, the baton is
+        handed to the next actor in index order when the step counter reaches the next k; an actor
+        that is done or dead is skipped.  Without the knob: None (the chooser decides)."""
+        plan = self.knobs.get("preempt_at")
+        if plan is None:
+            return None
+        turn = sum(1 for k in plan if self.steps >= k)
+        n = len(self.actors)
+        for offset in range(n):
+            candidate = self.actors[(turn + offset) % n]
+            if candidate in runnable:
+                return candidate
+        return None
 
     def _pump(self, actor) -> None:
         """Serve the running actor process until it parks at its next seam or finishes."""
